@@ -172,7 +172,10 @@ def merge(prop, results, outdir):
         samples.extend(r["samples"][:3])
         violations.extend(r["violations"])
         for k, v in r.get("info", {}).items():
-            infos.setdefault(k, v)
+            if isinstance(v, list) and isinstance(infos.get(k), list):
+                infos[k] = (infos[k] + [x for x in v if x not in infos[k]])[:200]
+            else:
+                infos.setdefault(k, v)
         ntp = path + ".nt"
         if os.path.exists(ntp):
             data = open(ntp, "rb").read()
